@@ -293,4 +293,43 @@ def expectedTaskGuards : List (String × String × String) := [
 
 theorem taskGuards_pin : Gen.taskGuards = expectedTaskGuards := by rfl
 
+/-- the kernel's tick, as `Sys.tick` (Model/System.lean) models it step by step: (1) dequeue up to `CompletionBatchSize`
+    completions and hand each to its coroutine (`deliverAll`), (2) offer every background coroutine whose signal timeout has
+    passed and whose previous instance has finished to the scheduler, recording `last = t` whether or not it was admitted
+    (`startBg`), (3) rotate the registry by one when a due coroutine was refused (`bgRefused` / `rotate1`, the fix of F17),
+    (4) dequeue API submissions and start their coroutines, answering "scheduler queue full" for those that do not fit
+    (`startReqs`), (5) run until blocked (`runAll`), (6) flush the submissions (`pending ++ disp`). -/
+def expectedTickCalls : List String := ["util.Assert", "util.Assert", "s.aio.DequeueCQE", "util.Assert", "cqe.Callback", "s.api.Done", "int64", "s.config.SignalTimeout.Milliseconds", "bg.promise.Completed", "fmt.Sprintf", "gocoro.Add", "bg.coroutine", "s.coroutineMetrics", "slog.Warn", "len", "append", "s.api.DequeueSQE", "util.Assert", "util.Assert", "fmt.Sprintf", "gocoro.Add", "coroutine", "s.coroutineMetrics", "slog.Warn", "sqe.Callback", "t_api.NewError", "s.scheduler.RunUntilBlocked", "s.aio.Flush"]
+
+theorem tickCalls_pin : Gen.tickCalls = expectedTickCalls := by rfl
+
+def expectedTickConds : List String := [
+  "!s.api.Done() && (t-bg.last) >= int64(s.config.SignalTimeout.Milliseconds()) && (bg.promise == nil || bg.promise.Completed())",
+  "ok",
+  "full && len(s.background) > 1",
+  "ok"
+]
+
+theorem tickConds_pin : Gen.tickConds = expectedTickConds := by rfl
+
+/-- the queues around the kernel, as `Sys.step` models them: `EnqueueSQE` answers "shutting down" once shutdown was requested,
+    else enqueues when there is room, else answers "queue full" (`Choice.submit`); `Done` = shutdown requested and queue empty
+    (`apiDone && apiQ.isEmpty`); `DequeueSQE` / `DequeueCQE` take the buffered entry first, then what the channel holds
+    (`dequeueCount`, `cq.take`); `Dispatch` hands a submission to its subsystem and `Flush` flushes every subsystem. -/
+def expectedQueueShapes : List (String × String × String × String) := [
+  ("internal/api/api.go", "EnqueueSQE", "util.Assert util.Assert sqe.Submission.Kind.String util.Assert util.Assert errors.As error.Code res.Status sqe.Submission.Kind.String strconv.Itoa int sqe.Submission.Kind.String callback sqe.Callback t_api.NewError sqe.Callback t_api.NewError", "err != nil ;; a.done ;; select: a.sq <- sqe ;; select-default"),
+  ("internal/api/api.go", "DequeueSQE", "append len append", "a.buffer != nil ;; select: sqe, ok := <-a.sq ;; !ok ;; select-default"),
+  ("internal/api/api.go", "EnqueueCQE", "util.Assert util.Assert cqe.Callback", ""),
+  ("internal/api/api.go", "Shutdown", "", ""),
+  ("internal/api/api.go", "Done", "len", ""),
+  ("internal/kernel/system/system.go", "Done", "s.api.Done s.scheduler.Size", ""),
+  ("internal/kernel/system/system.go", "Shutdown", "s.api.Shutdown close", ""),
+  ("internal/aio/aio.go", "EnqueueCQE", "util.Assert", ""),
+  ("internal/aio/aio.go", "DequeueCQE", "append len append", "a.buffer != nil ;; select: cqe, ok := <-a.cq ;; !ok ;; select-default"),
+  ("internal/aio/aio.go", "Dispatch", "util.Assert util.Assert a.EnqueueSQE", ""),
+  ("internal/aio/aio.go", "Flush", "util.OrderedRange subsystem.Flush", "")
+]
+
+theorem queueShapes_pin : Gen.queueShapes = expectedQueueShapes := by rfl
+
 end Resonate
